@@ -79,9 +79,41 @@ fn de_ops<T: Model + BorshDeserialize>(op: &str, args: &[&str]) -> Option<String
     }
 }
 
+/// Property oracle for the round trip, on the implementation alone.
+fn rt_ops<T: Model + BorshSerialize + BorshDeserialize>(op: &str, args: &[&str]) -> Option<String> {
+    match (op, args) {
+        ("rt", [v, tail]) => {
+            let v = parse_val(v).ok()?;
+            let tail = unhex(tail).ok()?;
+            let x = match T::from_val(&v) {
+                Some(x) => x,
+                None => return Some("skip from_val".into()),
+            };
+            let mut b = match borsh::to_vec(&x) {
+                Ok(b) => b,
+                Err(_) => return Some("skip encerr".into()),
+            };
+            b.extend_from_slice(&tail);
+            let mut s: &[u8] = &b;
+            Some(match T::deserialize(&mut s) {
+                Ok(y) => {
+                    if y.to_val() == x.to_val() && s == &tail[..] {
+                        "ok same".to_string()
+                    } else {
+                        format!("diff {} {}", show(&y.to_val()), hex(s))
+                    }
+                }
+                Err(e) => format!("dec{}", err_s(&e)),
+            })
+        }
+        _ => None,
+    }
+}
+
 pub fn run_full<T: Model + BorshSerialize + BorshDeserialize>(op: &str, args: &[&str]) -> String {
     ser_ops::<T>(op, args)
         .or_else(|| de_ops::<T>(op, args))
+        .or_else(|| rt_ops::<T>(op, args))
         .unwrap_or_else(|| format!("harness-error unknown op {}", op))
 }
 pub fn run_ser<T: Model + BorshSerialize>(op: &str, args: &[&str]) -> String {
